@@ -1526,6 +1526,20 @@ def _build():
         site="cdd/argparse_function/utils/emit_utils.py:parse_out_param / cdd/shared/ast_utils.py:infer_type_and_default",
         example="{'alpha': {'typ': 'Literal[1, 2]', 'doc': 'the value'}} through argparse"))
     out.append(dict(
+        id="C02-partial-doc-none-default-dequoted", property="C02",
+        pattern=dict(check="format_roundtrip", fmt="function", emit_default_doc=True, doc_kind="some_nodoc", entry="param", field="default", expected="None", observed="str", typ_class="Optional"),
+        what="[R-default-quotes] the de-quoted None default (prose default wins over the signature default), seen in partially documented functions",
+        site="cdd/shared/defaults_utils.py:extract_default / cdd/shared/parse/utils/parser_utils.py:merge_present_params",
+        example="def fn(alpha: int=5, beta: Optional[str]=None) documenting only beta ('Defaults to ```(None)```') -> beta.default == '(None)'"))
+    out.append(dict(
+        id="C02-partial-doc-undocumented-default-replaced-by-zero", property="C02",
+        pattern=dict(check="format_roundtrip", fmt="function", style="google", emit_default_doc=True, doc_kind="some_nodoc", entry="param", field="default", expected="int", observed="int", earlier_default=True),
+        what="Google style writes an entry with an empty description ('beta (int): ') for an undocumented parameter; read back, the parser invents the zero value for it because an earlier "
+             "parameter has a default, and that invented 0 replaces the signature's own default 5 (merge_present_params lets the docstring-derived default win; making the signature win "
+             "breaks three in-memory parse tests)",
+        site="cdd/shared/docstring_parsers.py (Google: invented defaults after the first defaulted parameter) / cdd/shared/parse/utils/parser_utils.py:merge_present_params",
+        example="def fn(alpha: int=5, beta: int=5) documenting only alpha, Google style, emit_default_doc=True -> beta.default == 0"))
+    out.append(dict(
         id="C02-google-multiline-description-truncated", property="C02",
         pattern=dict(check="format_roundtrip", style="google", multiline_doc=True, field="doc", observed="truncated"),
         what="[R-google-continuation-unindented] as C01-google-multiline-description-continuation-unindented: in Google style only the first line of a multi-line description comes back",
@@ -1535,6 +1549,7 @@ def _build():
 
 FINDINGS = _build()
 FIXED = [
+    'fixed: property=C02 7d1086f class/pydantic/function: a partially documented interface came back with the documented parameters first (order changed); found when partially documented pairs/triples joined the C02 space',
     "fixed: property=C02 f4150fc class/function with docstring_format='google': only the first line of a multi-line description came back",
     'fixed: property=C02 fc46805 class/pydantic/function with emit_default_doc: string default with a full stop cut at the dot or SyntaxError',
     'fixed: property=C02 26237d2 class/pydantic/function with emit_default_doc: string default with a double quote raised SyntaxError on parse',
